@@ -264,6 +264,123 @@ int msgsMain(void)
 	return 0;
 }
 
+/* ------------------------------------------------------------------ ovstate (C11): buffers that may overlap the STATE
+   command: ovstate f=<name> kind=start|get pos=at0|at1|mid|end|end1|lo|hi klen=K len=N
+   start: the key lies inside / straddles the state buffer handed to *Start (belt.h: "key и state могут пересекаться"),
+          then one message is processed and logged in the one-shot line format (the key as it was before Start);
+   get:   the tag buffer of StepG / StepG2 lies inside / straddles the state (the state is not used afterwards). */
+static long symPos(const char* pos, size_t keep, size_t blen)
+{
+	if (!strcmp(pos, "at0")) return 0;
+	if (!strcmp(pos, "at1")) return 1;
+	if (!strcmp(pos, "mid")) return keep > blen ? (long)((keep - blen) / 2) : 0;
+	if (!strcmp(pos, "end")) return (long)keep - (long)blen;
+	if (!strcmp(pos, "end1")) return (long)keep - (long)blen - 1;
+	if (!strcmp(pos, "lo")) return -(long)(blen / 2);
+	return (long)keep - (long)(blen / 2);		/* hi */
+}
+int ovstateMain(void)
+{
+	static char line[1 << 12]; vx_cmd c;
+	while (fgets(line, sizeof line, stdin))
+	{
+		const char *f, *kind, *pos; size_t klen, len, keep = 0, blen, i; long off; int inside;
+		octet *arena, *st, *buf, *msg = 0, *out = 0; octet ksnap[32], iv[16], hdr[20], level[12], tag[32], tsep[32]; size_t taglen = 0;
+		u32 mod = 0; u16* w = 0; long long* a = 0;
+		if (!vxParse(&c, line)) continue;
+		f = vxArg(&c, "f"); kind = vxArg(&c, "kind"); pos = vxArg(&c, "pos"); if (!pos) pos = "sweep"; if (!f || !kind) continue;
+		klen = (size_t)vxInt(&c, "klen", 32); len = (size_t)vxInt(&c, "len", 32);
+		vxRandBuf(iv, 16); vxRandBuf(hdr, 20); vxRandBuf(level, 12); vxRandBuf(ksnap, 32);
+		if (!strcmp(f, "fmt")) mod = len == 10 ? 10 : 65536;
+		keep = !strcmp(f, "wbl") ? beltWBL_keep() : !strcmp(f, "ecb") ? beltECB_keep() : !strcmp(f, "cbc") ? beltCBC_keep() :
+			!strcmp(f, "cfb") ? beltCFB_keep() : !strcmp(f, "ctr") ? beltCTR_keep() : !strncmp(f, "mac", 3) ? beltMAC_keep() :
+			!strcmp(f, "dwp") ? beltDWP_keep() : !strcmp(f, "che") ? beltCHE_keep() : !strcmp(f, "bde") ? beltBDE_keep() :
+			!strcmp(f, "sde") ? beltSDE_keep() : !strcmp(f, "fmt") ? beltFMT_keep(mod, len) : !strcmp(f, "krp") ? beltKRP_keep() :
+			!strncmp(f, "hashG", 5) ? beltHash_keep() : !strncmp(f, "hmacG", 5) ? beltHMAC_keep() : 0;
+		if (!keep) { fprintf(stderr, "ovstate: unknown f=%s\n", f); return 3; }
+		taglen = !strcmp(f, "macG") ? 8 : !strcmp(f, "macG2") ? 5 : !strcmp(f, "hashG") ? 32 : !strcmp(f, "hashG2") ? 13 : !strcmp(f, "hmacG2") ? 21 : 0;
+		if (!strcmp(kind, "keep")) { jBegin(); jStr("op", "keep"); jStr("f", f); jInt("keep", (long long)keep); jInt("taglen", (long long)taglen); jEnd(); continue; }
+		blen = !strcmp(kind, "start") ? klen : taglen;
+		off = vxArg(&c, "off") ? (long)vxInt(&c, "off", 0) : symPos(pos, keep, blen);
+		inside = off >= 0 && off + (long)blen <= (long)keep;
+		/* a buffer lying inside the state: the state is allocated at its exact size (ASan guards it); straddling: an arena with slack */
+		if (inside) { arena = (octet*)malloc(keep); st = arena; } else { arena = (octet*)malloc(keep + 128); st = arena + 64; }
+		memset(arena, 0xC3, inside ? keep : keep + 128);
+		buf = st + off;
+		if (!strcmp(f, "fmt"))
+		{
+			w = (u16*)malloc(2 * len); a = (long long*)malloc(sizeof(long long) * len);
+			for (i = 0; i < len; ++i) w[i] = (u16)(vxRand64() % mod);
+		}
+		else { msg = rnd(len); out = (octet*)malloc(len ? len : 1); memcpy(out, msg, len); }
+		if (!strcmp(kind, "start"))
+		{
+			memcpy(buf, ksnap, klen);		/* the key inside the (still unused) state */
+			jBegin();
+			if (!strcmp(f, "wbl")) { beltWBLStart(st, buf, klen); beltWBLStepE(out, len, st); jStr("op", "wblE"); }
+			else if (!strcmp(f, "ecb")) { beltECBStart(st, buf, klen); beltECBStepE(out, len, st); jStr("op", "ecbE"); }
+			else if (!strcmp(f, "cbc")) { beltCBCStart(st, buf, klen, iv); beltCBCStepE(out, len, st); jStr("op", "cbcE"); jOct("iv", iv, 16); }
+			else if (!strcmp(f, "cfb")) { beltCFBStart(st, buf, klen, iv); beltCFBStepE(out, len, st); jStr("op", "cfbE"); jOct("iv", iv, 16); }
+			else if (!strcmp(f, "ctr")) { beltCTRStart(st, buf, klen, iv); beltCTRStepE(out, len, st); jStr("op", "ctr"); jOct("iv", iv, 16); }
+			else if (!strcmp(f, "bde")) { beltBDEStart(st, buf, klen, iv); beltBDEStepE(out, len, st); jStr("op", "bdeE"); jOct("iv", iv, 16); }
+			else if (!strcmp(f, "sde")) { beltSDEStart(st, buf, klen); beltSDEStepE(out, len, iv, st); jStr("op", "sdeE"); jOct("iv", iv, 16); }
+			else if (!strcmp(f, "mac")) { beltMACStart(st, buf, klen); beltMACStepA(msg, len, st); beltMACStepG(tag, st); jStr("op", "mac"); }
+			else if (!strcmp(f, "dwp") || !strcmp(f, "che"))
+			{
+				if (f[0] == 'd') { beltDWPStart(st, buf, klen, iv); beltDWPStepI(hdr, 20, st); beltDWPStepE(out, len, st); beltDWPStepA(out, len, st); beltDWPStepG(tag, st); }
+				else { beltCHEStart(st, buf, klen, iv); beltCHEStepI(hdr, 20, st); beltCHEStepE(out, len, st); beltCHEStepA(out, len, st); beltCHEStepG(tag, st); }
+				jStr("op", f[0] == 'd' ? "dwpW" : "cheW"); jOct("iv", iv, 16); jOct("hdr", hdr, 20); jOct("tag", tag, 8);
+			}
+			else if (!strcmp(f, "krp"))
+			{
+				free(out); out = (octet*)malloc(klen); len = 0;
+				beltKRPStart(st, buf, klen, level); beltKRPStepG(out, klen, hdr, st);
+				jStr("op", "krp"); jOct("iv", level, 12); jOct("hdr", hdr, 16);
+			}
+			else if (!strcmp(f, "fmt"))
+			{
+				jStr("op", "fmtE"); jInt("mod", mod); jOct("iv", iv, 16);
+				for (i = 0; i < len; ++i) a[i] = w[i]; jIntArr("in", a, len);
+				beltFMTStart(st, mod, len, buf, klen); beltFMTStepE(w, iv, st);
+				for (i = 0; i < len; ++i) a[i] = w[i]; jIntArr("out", a, len);
+			}
+			jStr("cls", "ovstate"); jStr("f", f); jStr("kind", kind); jStr("pos", pos); jInt("off", off);
+			jOct("key", ksnap, klen);
+			if (!strcmp(f, "mac")) { jOct("in", msg, len); jOct("out", tag, 8); }
+			else if (!strcmp(f, "krp")) jOct("out", out, klen);
+			else if (strcmp(f, "fmt")) { jOct("in", msg, len); jOct("out", out, len); }
+			jInt("rc", 0); jEnd();
+		}
+		else
+		{	/* get: the tag is written into the state's own memory */
+			memset(tsep, 0, sizeof tsep);
+			jBegin();
+			if (!strncmp(f, "mac", 3))
+			{
+				beltMACStart(st, ksnap, klen); beltMACStepA(msg, len, st);
+				if (taglen == 8) beltMACStepG(buf, st); else beltMACStepG2(buf, taglen, st);
+				jStr("op", taglen == 8 ? "mac" : "macT"); jOct("key", ksnap, klen);
+			}
+			else if (!strncmp(f, "hashG", 5))
+			{
+				beltHashStart(st); beltHashStepH(msg, len, st);
+				if (taglen == 32) beltHashStepG(buf, st); else beltHashStepG2(buf, taglen, st);
+				jStr("op", taglen == 32 ? "hash" : "hashT");
+			}
+			else
+			{
+				beltHMACStart(st, ksnap, klen); beltHMACStepA(msg, len, st); beltHMACStepG2(buf, taglen, st);
+				jStr("op", "hmacT"); jOct("key", ksnap, klen);
+			}
+			memcpy(tsep, buf, taglen);
+			jStr("cls", "ovstate"); jStr("f", f); jStr("kind", kind); jStr("pos", pos); jInt("off", off);
+			jOct("in", msg, len); jOct("out", tsep, taglen); jInt("rc", 0); jEnd();
+		}
+		free(arena); free(msg); free(out); free(w); free(a);
+	}
+	return 0;
+}
+
 /* ------------------------------------------------------------------ overlap (C11)
    command: overlap f=<op> klen=K len=N doff=D [kpos=P] [ipos=P] [hpos=P] [tpos=P]
    An arena holds src at offset BASE and dest at BASE+doff.  kpos/ipos/hpos >= 0 place the
